@@ -14,18 +14,31 @@ Two ties to the code, both run on /repo in-process:
             millisecond selects the document, one denoting another millisecond does not;
     READ    every read path x tz_aware False/True: naive, resp. aware-UTC at every depth, same
             instants as stored.
+    AGG     (follows the repair d1da933) a datetime written in an aggregation pipeline, at every
+            position where a value can be written x generated nesting x tz_aware: it comes out in
+            the form the collection's own documents are read in, `$out` stores it like an insert,
+            an equivalent way of writing it gives the same aggregation; a stored field compared
+            with a written datetime (every comparison operator, both operand orders, `$match`,
+            `$in`, `$subtract`, `$bucket` boundaries, `$lookup` …) answers by milliseconds under
+            both settings.  Tied to the model: the pipeline `process_pipeline` is handed
+            ~ Lean `aggPipeline`, the six comparisons ~ Lean `Expr.compareOp` on `readDoc` /
+            `aggPipeline` (theorems `literal_form`, `compare_field_with_literal`, …).
     Deviations are classified; classes listed in known_findings.json are reported as KNOWN,
     anything else is a VIOLATION with a replayable case.
+(c) the witnesses of the repaired findings (status "fixed" in known_findings.json) are run on every
+    check: python must follow the rule on each of them now, else VIOLATION.
 
 """
 import collections
 import copy
 import datetime as _dt
 import json
+import os
 import random
 from unittest import mock
 
 import mongomock
+import mongomock.aggregate as _mm_aggregate
 from mongomock import helpers
 from mongomock.collection import ReturnDocument
 
@@ -38,7 +51,8 @@ RULE = ('case = one generated datetime (naive / aware, offsets -12h..+14h in 15 
         'OrderedDicts, lists, tuples, depth 0-3) sent through one write path / filter entry point '
         'x filter form / read path x tz_aware, or one generated value through the two helpers; '
         'non-trivial = the datetime is aware with a non-zero offset or has a non-zero '
-        'sub-millisecond part, and sits below the top level (nesting depth >= 1); distinct = by '
+        'sub-millisecond part, and sits below the top level (nesting depth >= 1; for a datetime '
+        'written in a pipeline the stage and operator it sits in count as nesting); distinct = by '
         'hash of (part, path / entry point / form, nesting signature, wire encoding of the value)')
 
 ASSUMPTIONS = [
@@ -49,8 +63,7 @@ ASSUMPTIONS = [
     'until then the write paths are covered by the direct check (b) only',
     'bulk_write is not exercised (it forwards to the same _insert / _update)',
 ]
-KNOWN_CLASSES = ('currentdate_raw', 'tzaware_deepcopy', 'aggregate_literal_raw',
-                 'tzaware_delete_date_id')
+KNOWN_CLASSES = ('aggregate_computed_raw',)
 
 
 # ================================================================================================
@@ -571,15 +584,10 @@ def run_write(ctx, judge, case):
         return
     docs = raw_docs(c)
     devs = []                         # (class or None, text)
-    clock = case['path'].startswith('$currentDate')
-
-    def raw_clock(x):
-        return 'currentdate_raw' if (clock and enc(x) == enc(W)) else None
-
     for doc in docs:
         for x in g.dates_of(doc):
             if not g.is_normal(x):
-                devs.append((raw_clock(x), 'stored datetime %r is not naive with whole '
+                devs.append((None, 'stored datetime %r is not naive with whole '
                              'milliseconds' % (x,)))
         if g.has_tuple(doc):
             devs.append((None, 'a tuple was stored'))
@@ -598,7 +606,7 @@ def run_write(ctx, judge, case):
             continue
         exp = g.spec_patch(inp)
         if enc(got) != enc(exp):
-            devs.append((raw_clock(got), 'at %s: stored %s, the normal form of the input is %s'
+            devs.append((None, 'at %s: stored %s, the normal form of the input is %s'
                          % ('.'.join(comps), enc(got), enc(exp))))
     # the store key must be the stored _id (C05 meets C18: key taken after normalisation)
     for key, doc in c._store._documents.items():
@@ -646,8 +654,7 @@ def _id_checks(case, c):
         if r.deleted_count != 1 or len(raw_docs(c)) != n - 1:
             devs.append((None, 'delete_one by the equivalent _id removed %d' % r.deleted_count))
     except Exception as e:  # pylint: disable=broad-except
-        cls = 'tzaware_delete_date_id' if (case['tz'] and isinstance(e, KeyError)) else None
-        devs.append((cls, 'delete_one by the equivalent _id raised %s (tz_aware=%s)'
+        devs.append((None, 'delete_one by the equivalent _id raised %s (tz_aware=%s)'
                      % (type(e).__name__, case['tz'])))
     return devs
 
@@ -1132,21 +1139,16 @@ def run_read(ctx, judge, case):
         res = READ_BY_NAME[case['path']](c, case)
     except Exception as e:  # pylint: disable=broad-except
         judge.errors['read:' + wire.err_name(e)] += 1
-        cls = None
-        if case['tz'] and isinstance(e, TypeError) and 'timedelta' in str(e):
-            cls = 'tzaware_deepcopy'
-        judge.deviation(cls, dict(rep, what='read path %s raised %s: %s'
+        judge.deviation(None, dict(rep, what='read path %s raised %s: %s'
                                   % (case['path'], type(e).__name__, e)),
                         rank=nest.depth * 1000)
         return
     devs = []
     ds = g.dates_of(res)
-    lit_ms = g.ms_of(case['literal'])
-    literal_only = True
     allowed = set(stored_ms) | set(g.ms_of(x) for x in g.dates_of(case['W2'])) \
         | {g.ms_of(case['date'])}
     if case['path'] == 'aggregate literal':
-        allowed.add(lit_ms)
+        allowed.add(g.ms_of(case['literal']))
     for x in ds:
         ok = g.is_aware_utc(x) if case['tz'] else x.tzinfo is None
         whole = x.microsecond % 1000 == 0
@@ -1155,20 +1157,301 @@ def run_read(ctx, judge, case):
             devs.append('%r is not %s' % (x, 'aware UTC with whole milliseconds of a stored instant'
                                           if case['tz'] else
                                           'naive with whole milliseconds of a stored instant'))
-            if not (case['path'] == 'aggregate literal' and g.ms_of(x) == lit_ms
-                    and enc(x) == enc(case['literal'])):
-                literal_only = False
     if not ds and case['path'] not in ('find_one_and_update upsert after',):
         devs.append('the read returned no datetime at all: %r' % (res,))
-        literal_only = False
     if devs:
-        cls = 'aggregate_literal_raw' if (case['path'] == 'aggregate literal' and literal_only) \
-            else None
-        judge.deviation(cls, dict(rep, what='read path %s under tz_aware=%s returns datetimes that '
-                                  'are not %s' % (case['path'], case['tz'],
-                                                  'aware UTC' if case['tz'] else 'naive UTC'),
-                                  deviations=devs[:6], result=pretty(res)),
+        judge.deviation(None, dict(rep, what='read path %s under tz_aware=%s returns datetimes that '
+                                   'are not %s' % (case['path'], case['tz'],
+                                                   'aware UTC' if case['tz'] else 'naive UTC'),
+                                   deviations=devs[:6], result=pretty(res)),
                         rank=nest.depth * 1000 + len(enc(W)))
+
+
+# ================================================================================================
+# (b4) a datetime written in an aggregation pipeline
+# ================================================================================================
+VALUE_BY_NAME = {n: (sh, b) for n, sh, b in g.VALUE_POSITIONS}
+COMPARE_BY_NAME = {n: (b, e) for n, b, e in g.COMPARE_POSITIONS}
+COMPUTED_BY_NAME = dict(g.COMPUTED_POSITIONS)
+
+
+def agg_case(seed, part, name, tz):
+    """part: 'value' | 'compare' | 'computed'"""
+    r = random.Random(seed)
+    dg = g.DateGen(r)
+    d = dg.date()
+    case = {'kind': 'agg', 'case_seed': seed, 'part': part, 'position': name, 'tz': tz, 'dg': dg,
+            'date': d, 'far': dg.far()}
+    if part == 'value':
+        shape = VALUE_BY_NAME[name][0]
+        nest = g.Nest(r, 0 if shape == 'bare' else r.choice([0, 0, 1, 1, 2, 3]), dg)
+        x = r.random()
+        lit = dg.date() if x < 0.6 else dg.equivalent(d) if x < 0.8 else dg.other(d)
+        lit2 = dg.date()
+        nest2 = g.Nest(r, 0 if shape == 'bare' else r.choice([0, 0, 1]), dg)
+        case.update(nest=nest, literal=lit, L=nest.wrap(lit), L2=nest2.wrap(lit2),
+                    L_same=nest.wrap(dg.equivalent(lit)), L2_same=nest2.wrap(dg.equivalent(lit2)))
+    elif part == 'compare':
+        case.update(nest=g.Nest(r, 0, dg), same=dg.equivalent(d), other=dg.other(d))
+    else:
+        us = dg.instant_us()
+        us -= us % 1000
+        t = wire.EPOCH + _dt.timedelta(microseconds=us)
+        if r.random() < 0.3:
+            t = t.replace(microsecond=0)
+        case.update(nest=g.Nest(r, 0, dg), instant=t,
+                    parts=(t.year, t.month, t.day, t.hour, t.minute, t.second,
+                           t.microsecond // 1000))
+    return case
+
+
+def render_agg(case, **more):
+    rep = {'kind': 'agg', 'case_seed': case['case_seed'], 'part': case['part'],
+           'position': case['position'], 'tz_aware': case['tz'],
+           'stored_datetime': pretty(case['date'])}
+    if case['part'] == 'value':
+        rep.update(written_value=pretty(case['L']), second_written_value=pretty(case['L2']),
+                   nesting=case['nest'].signature())
+    elif case['part'] == 'compare':
+        rep.update(same_millisecond=pretty(case['same']), another_millisecond=pretty(case['other']))
+    else:
+        rep.update(parts=list(case['parts']))
+    rep.update(more)
+    return rep
+
+
+def _agg_setup(case):
+    cl = mongomock.MongoClient(tz_aware=case['tz'])
+    d, far = case['date'], case['far']
+    cl.db.c.insert_one({'_id': 1, 'k': 'x', 'f': d, 'u': [d, 1]})
+    cl.db.c.insert_one({'_id': 2, 'k': 'x', 'f': far, 'u': []})
+    cl.db.o.insert_many([{'_id': 5, 'f': d}, {'_id': 6, 'f': far}])
+    return cl
+
+
+def _aggregate(cl, pipeline):
+    """(result or '!Error…', the pipeline process_pipeline was handed at top level or None)"""
+    handed = []
+    real = _mm_aggregate.process_pipeline
+
+    def spy(collection, database, pl, session):
+        handed.append(pl)
+        return real(collection, database, pl, session)
+    try:
+        with mock.patch.object(_mm_aggregate, 'process_pipeline', spy):
+            res = list(cl.db.c.aggregate(pipeline))
+    except Exception as e:  # pylint: disable=broad-except
+        res = '!%s: %s' % (type(e).__name__, e)
+    return res, (handed[0] if handed else None)
+
+
+def _snapshot(pipeline):
+    """exact rendering of a pipeline object, tuples told from lists"""
+    return enc(pipeline) + (' #tuples' if g.has_tuple(pipeline) else '')
+
+
+def _check_handed(judge, case, rep, pipeline, before, handed, model_line):
+    """the pipeline process_pipeline is handed: python-only oracle, model correspondence, and the
+    caller's pipeline object is left alone"""
+    tz = case['tz']
+    if handed is None:
+        return
+    e_py = enc(handed)
+    e_spec = enc(g.spec_read(pipeline, tz))
+    if e_py != e_spec or g.has_tuple(handed):
+        judge.deviation(None, dict(rep, what='aggregate hands process_pipeline a pipeline whose '
+                                   'datetimes are not in the form this client reads stored ones in',
+                                   handed=e_py, rule=e_spec), rank=len(e_py))
+    if _snapshot(pipeline) != before:
+        judge.deviation(None, dict(rep, what='aggregate wrote to the pipeline object it was given'))
+    if model_line is not None:
+        parts = [x.strip() for x in model_line.split('|')]
+        if len(parts) != 2:
+            raise RuntimeError('driver answered %r' % model_line)
+        if parts[0] != e_py:
+            if e_py == e_spec:
+                judge.ctx.notes.append('model stale but python follows the rule (aggPipeline): '
+                                       + before[:200])
+            else:
+                judge.ctx.violation(dict(rep, what='correspondence: the pipeline handed to '
+                                         'process_pipeline differs from MongoModel.aggPipeline',
+                                         py=e_py, impl=parts[0], spec=e_spec), rank=len(e_py))
+        elif parts[0] != e_spec or parts[1] != 'T':
+            raise RuntimeError('Lean aggPipeline and the Python oracle disagree (theorem '
+                               'literal_form contradicted?) %r' % (rep,))
+
+
+def _result_form_devs(case, res, pipeline, extra_ms=()):
+    """every datetime of a result: read form of the client, a millisecond that was stored or
+    written"""
+    tz = case['tz']
+    allowed = {g.ms_of(case['date']), g.ms_of(case['far'])} | set(extra_ms) \
+        | set(g.ms_of(x) for x in g.dates_of(pipeline))
+    devs = []
+    for x in g.dates_of(res):
+        if not g.is_read_form(x, tz):
+            devs.append('%r is not %s with whole milliseconds' % (x, 'aware UTC' if tz else 'naive'))
+        elif g.ms_of(x) not in allowed:
+            devs.append('%r denotes a millisecond that was neither stored nor written' % (x,))
+    return devs
+
+
+def agg_lines(case):
+    """the driver lines of a case (answers are handed to run_agg in the same order)"""
+    tz = 'T' if case['tz'] else 'F'
+    lines = []
+    if case['part'] == 'value':
+        pipeline, _ = VALUE_BY_NAME[case['position']][1](case['L'], case['L2'])
+        lines.append('aggpipe %s %s' % (tz, enc(pipeline)))
+    elif case['part'] == 'compare':
+        for X in (case['same'], case['other']):
+            pipeline, _ = COMPARE_BY_NAME[case['position']][0](X)
+            lines.append('aggpipe %s %s' % (tz, enc(g.subst_stored(pipeline, case['date']))))
+            lines.append('cmpdate %s %s %s' % (tz, enc(case['date']), enc(X)))
+    return lines
+
+
+def run_agg(ctx, judge, case, answers=None):
+    """answers: the driver's answers to agg_lines(case), or None (no driver)"""
+    tz = case['tz']
+    name = case['position']
+    nest = case['nest']
+    answers = list(answers) if answers is not None else None
+
+    def answer():
+        return answers.pop(0) if answers else None
+
+    if case['part'] == 'value':
+        build = VALUE_BY_NAME[name][1]
+        judge.seen('agg', '%s tz_aware=%s' % (name, tz), nest.signature(), nest.depth + 1,
+                   case['literal'], enc(case['L']))
+        rep = render_agg(case)
+        pipeline, locate = build(copy.deepcopy(case['L']), copy.deepcopy(case['L2']))
+        before = _snapshot(pipeline)
+        cl = _agg_setup(case)
+        res, handed = _aggregate(cl, pipeline)
+        _check_handed(judge, case, rep, pipeline, before, handed, answer())
+        if isinstance(res, str):
+            judge.errors['agg:' + res.split(':')[0]] += 1
+            judge.deviation(None, dict(rep, what='aggregate raised %s' % res, pipeline=pretty(pipeline)),
+                            rank=nest.depth * 1000)
+            return
+        devs = _result_form_devs(case, res, pipeline)
+        try:
+            pairs = locate(res, cl)
+        except Exception as e:  # pylint: disable=broad-except
+            pairs = []
+            devs.append('the result has not the expected layout (%s): %r' % (type(e).__name__, res))
+        if not pairs and not devs:
+            devs.append('the written value does not appear in the result: %r' % (res,))
+        stored = name == '$out'
+        for found, written in pairs:
+            exp = g.spec_patch(written) if stored else g.spec_read(written, tz)
+            if enc(found) != enc(exp):
+                devs.append('written %s: %s %s, the rule gives %s'
+                            % (enc(written), 'stored' if stored else 'returned', enc(found), enc(exp)))
+        if stored:
+            for x in g.dates_of(list(cl.db.outc._store._documents.values())):
+                if not g.is_normal(x):
+                    devs.append('$out stored %r' % (x,))
+        if devs:
+            judge.deviation(None, dict(rep, what='a datetime written in the pipeline at %s does not '
+                                       'come out as UTC milliseconds in the form of this client '
+                                       '(tz_aware=%s)' % (name, tz), deviations=devs[:6],
+                                       pipeline=pretty(pipeline), result=pretty(res)),
+                            rank=nest.depth * 1000 + len(before))
+            return
+        # an equivalent way of writing the same milliseconds: the same aggregation
+        pipeline2, _ = build(copy.deepcopy(case['L_same']), copy.deepcopy(case['L2_same']))
+        cl2 = _agg_setup(case) if stored else cl      # only $out writes
+        res2, handed2 = _aggregate(cl2, pipeline2)
+        same = (isinstance(res2, list) and enc(res2) == enc(res)
+                and (handed is None or enc(handed2) == enc(handed)))
+        if stored and same:
+            same = enc(list(cl2.db.outc._store._documents.values())) == enc(
+                list(cl.db.outc._store._documents.values()))
+        if not same:
+            judge.deviation(None, dict(rep, what='the same milliseconds written another way at %s '
+                                       'give another aggregation' % name,
+                                       pipeline=pretty(pipeline), other_pipeline=pretty(pipeline2),
+                                       result=pretty(res), other_result=pretty(res2)),
+                            rank=nest.depth * 1000 + len(before))
+    elif case['part'] == 'compare':
+        build, expect = COMPARE_BY_NAME[name]
+        judge.seen('agg', '%s tz_aware=%s' % (name, tz), '', 1,
+                   case['same'] if g.nontrivial_date(case['same']) else case['date'],
+                   enc([case['date'], case['same'], case['other']]))
+        a = g.ms_of(case['date'])
+        cl = _agg_setup(case)                         # the comparisons write nothing
+        for which, X in (('the same millisecond', case['same']),
+                         ('another millisecond', case['other'])):
+            rep = render_agg(case, operand=which, operand_datetime=pretty(X))
+            pipeline, observe = build(copy.deepcopy(X))
+            pipeline = g.subst_stored(pipeline, case['date'])
+            before = _snapshot(pipeline)
+            res, handed = _aggregate(cl, pipeline)
+            _check_handed(judge, case, rep, pipeline, before, handed, answer())
+            m_cmp = answer()
+            exp = expect(a, g.ms_of(X), tz)
+            if isinstance(res, str):
+                judge.errors['agg:' + res.split(':')[0]] += 1
+                got = res
+            else:
+                try:
+                    got = observe(res)
+                except Exception as e:  # pylint: disable=broad-except
+                    got = '!layout %s: %r' % (type(e).__name__, res)
+            if name == 'field op literal' and m_cmp is not None:
+                m = [x.strip() for x in m_cmp.split('|')]
+                py = [('!' + got.split(':')[0][1:]) if isinstance(got, str) else
+                      ('T' if x is True else 'F' if x is False else repr(x)) for x in
+                      (got if isinstance(got, list) else [got] * 6)]
+                spec = ['T' if x else 'F' for x in exp]
+                if m != py:
+                    if py == spec:
+                        ctx.notes.append('model stale but python follows the rule (compareOp): '
+                                         + before[:200])
+                    else:
+                        ctx.violation(dict(rep, what='correspondence: a field compared with a '
+                                           'written datetime differs from Expr.compareOp on '
+                                           'readDoc / aggPipeline', py=py, impl=m, spec=spec),
+                                      rank=len(before))
+                        continue
+                elif m != spec:
+                    raise RuntimeError('Lean compareOp and the Python oracle disagree (theorem '
+                                       'compare_field_with_literal contradicted?) %r' % (rep,))
+            if enc(got) != enc(exp):
+                judge.deviation(None, dict(rep, what='%s against a written datetime denoting %s '
+                                           'under tz_aware=%s: expected %r, got %r'
+                                           % (name, which, tz, pretty(exp), pretty(got)),
+                                           pipeline=pretty(pipeline)), rank=len(before))
+            elif not isinstance(res, str):
+                devs = _result_form_devs(case, res, pipeline, extra_ms=[g.ms_of(g.LO)])
+                if devs:
+                    judge.deviation(None, dict(rep, what='%s returns datetimes not in the form of '
+                                               'this client' % name, deviations=devs[:6],
+                                               result=pretty(res)), rank=len(before))
+    else:
+        build = COMPUTED_BY_NAME[name]
+        t = case['instant']
+        judge.seen('agg', '%s tz_aware=%s' % (name, tz), '', 1, None, repr(case['parts']))
+        rep = render_agg(case)
+        pipeline, observe = build(case['parts'])
+        cl = _agg_setup(case)
+        res, _ = _aggregate(cl, pipeline)
+        if isinstance(res, str):
+            got = res
+        else:
+            got = observe(res)
+        if name.endswith('compared'):
+            exp = g.ms_of(t) < g.ms_of(case['date'])
+        else:
+            exp = g.spec_read(t, tz)
+        if enc(got) != enc(exp):
+            judge.deviation('aggregate_computed_raw',
+                            dict(rep, what='a datetime computed by $dateFromParts under tz_aware=%s: '
+                                 'the rule gives %s, got %s' % (tz, pretty(exp), pretty(got)),
+                                 pipeline=pretty(pipeline)), rank=1)
 
 
 # ================================================================================================
@@ -1191,6 +1474,8 @@ def run(ctx, proof, driver_ok):
     n_filter = ctx.n(50, 600)        # per entry point x form (two queries each)
     n_arrayq = ctx.n(500, 5000)      # per operator
     n_read = ctx.n(120, 1500)        # per read path x tz
+    n_agg = ctx.n(24, 400)           # per pipeline position x tz
+    run_fixed(ctx, judge, wire_ok)
     if wire_ok:
         done = 0
         while done < n_corr and not ctx.too_many():
@@ -1227,6 +1512,20 @@ def run(ctx, proof, driver_ok):
                 case = read_case(rng.getrandbits(48), name, tz)
                 run_read(ctx, judge, case)
                 _sample(judge, render_read(case), case)
+    agg_positions = [('value', n) for n, _, _ in g.VALUE_POSITIONS] \
+        + [('compare', n) for n, _, _ in g.COMPARE_POSITIONS] \
+        + [('computed', n) for n, _ in g.COMPUTED_POSITIONS]
+    cases = []
+    for part, name in agg_positions:
+        for tz in (False, True):
+            k = n_agg if part != 'computed' else max(10, n_agg // 4)
+            cases.extend(agg_case(rng.getrandbits(48), part, name, tz) for _ in range(k))
+    for i in range(0, len(cases), 4000):           # one driver call per 4000 cases
+        if ctx.too_many():
+            break
+        run_agg_batch(ctx, judge, cases[i:i + 4000], wire_ok)
+    for case in cases:
+        _sample(judge, render_agg(case), case)
     return {
         'evaluations': sum(judge.counts.values()),
         'distinct_nontrivial': len(judge.nontrivial),
@@ -1237,6 +1536,10 @@ def run(ctx, proof, driver_ok):
         'filter_entry_points': len(ENTRY_POINTS),
         'filter_forms': len(FILTER_FORMS),
         'read_paths': len(READ_PATHS),
+        'pipeline_value_positions': len(g.VALUE_POSITIONS),
+        'pipeline_compare_positions': len(g.COMPARE_POSITIONS),
+        'repaired_findings_rerun': sorted(e['id'] for e in common.load_known('C18')
+                                          if e.get('status') == 'fixed'),
         'cases_by_path': dict(judge.by_path),
         'nesting_depth_histogram': {str(k): v for k, v in sorted(judge.depths.items())},
         'deviations_by_class': dict(judge.classes),
@@ -1245,8 +1548,22 @@ def run(ctx, proof, driver_ok):
     }
 
 
+def run_agg_batch(ctx, judge, cases, wire_ok):
+    lines = []
+    spans = []
+    for case in cases:
+        ls = agg_lines(case) if wire_ok else []
+        spans.append((len(lines), len(lines) + len(ls)))
+        lines.extend(ls)
+    out = wire.run_driver(lines) if lines else []
+    for case, (i, j) in zip(cases, spans):
+        if ctx.too_many():
+            break
+        run_agg(ctx, judge, case, out[i:j] if wire_ok else None)
+
+
 def _sample(judge, rep, case):
-    if len(judge.samples) < 5 and case['nest'].depth >= 2 and g.nontrivial_date(case['date']) \
+    if len(judge.samples) < 6 and case['nest'].depth >= 2 and g.nontrivial_date(case['date']) \
             and not any(s['kind'] == rep['kind'] for s in judge.samples[-2:]):
         judge.samples.append(rep)
 
@@ -1255,6 +1572,13 @@ def _rerun(ctx, judge, e):
     kind = e['kind']
     if kind == 'corr':
         run_corr(ctx, judge, [e['case_seed']])
+        return
+    if kind == 'regression':
+        run_fixed(ctx, judge, os.path.exists(wire.DRIVER), only=e['finding'])
+        return
+    if kind == 'agg':
+        run_agg_batch(ctx, judge, [agg_case(e['case_seed'], e['part'], e['position'],
+                                            e['tz_aware'])], os.path.exists(wire.DRIVER))
         return
     mk, runner, _ = KINDS[kind]
     if kind == 'write':
@@ -1274,12 +1598,14 @@ def replay(ctx, path):
     judge.known = set()          # a replay shows the deviation whatever its class
     _rerun(ctx, judge, e)
     print(json.dumps({'replayed': {k: e[k] for k in e if k in (
-        'kind', 'case_seed', 'path', 'entry_point', 'filter_form', 'operator', 'tz_aware')},
+        'kind', 'case_seed', 'path', 'entry_point', 'filter_form', 'operator', 'tz_aware',
+        'part', 'position', 'finding')},
         'violations': len(ctx.violations),
         'what': [v[2].get('what') for v in ctx.violations][:3]}, default=repr))
     return common.finish(ctx)
 
-# -- known findings ------------------------------------------------------------------------------
+# -- known findings and repaired findings ---------------------------------------------------------
+# each function: does the recorded witness depart from the property on the real code?
 def _finding_currentdate_raw(w):
     bad = []
     for key in ('wire_utcnow', 'wire_utcnow_aware'):
@@ -1294,22 +1620,34 @@ def _finding_tzaware_deepcopy(w):
     c = fresh(True)
     c.insert_one({'_id': 1, 'u': [wire.dec(w['wire_stored'])]})
     try:
-        list(c.aggregate([{'$unwind': '$u'}]))
+        res = list(c.aggregate([{'$unwind': '$u'}]))
     except TypeError:
         return True
-    return False
+    return enc(res) != enc([{'_id': 1, 'u': g.spec_read(wire.dec(w['wire_stored']), True)}])
 
 
 def _finding_aggregate_literal_raw(w):
+    """the recorded pipeline ($addFields / $literal), then the same literal compared with a stored
+    field and stored through $out — under both settings"""
     lit = wire.dec(w['wire_literal'])
     out = []
     for tz in (False, True):
         c = fresh(tz)
-        c.insert_one({'_id': 1})
-        res = list(c.aggregate([{'$addFields': {'lit': {'$literal': lit}}}]))
-        x = res[0]['lit']
-        out.append((g.is_aware_utc(x) if tz else x.tzinfo is None) and x.microsecond % 1000 == 0)
+        c.insert_one({'_id': 1, 'f': lit})
+        try:
+            res = list(c.aggregate([{'$addFields': {'lit': {'$literal': lit}}}]))
+            out.append(enc(res[0]['lit']) == enc(g.spec_read(lit, tz)))
+            res = list(c.aggregate([{'$project': {'e': {'$eq': ['$f', lit]},
+                                                  'g': {'$gt': ['$f', lit]}}}]))
+            out.append(res == [{'_id': 1, 'e': True, 'g': False}])
+            list(c.aggregate([{'$addFields': {'lit': [lit]}}, {'$out': 'outc'}]))
+            raw = list(c.database.outc._store._documents.values())
+            out.append(enc(raw) == enc([{'_id': 1, 'f': g.spec_patch(lit),
+                                         'lit': [g.spec_patch(lit)]}]))
+        except Exception:  # pylint: disable=broad-except
+            out.append(False)
     return not all(out)
+
 
 def _finding_tzaware_delete_date_id(w):
     c = fresh(True)
@@ -1320,11 +1658,29 @@ def _finding_tzaware_delete_date_id(w):
         return True
 
 
+def _finding_aggregate_computed_raw(w):
+    parts = w['parts']
+    out = []
+    for tz in (False, True):
+        c = fresh(tz)
+        c.insert_one({'_id': 1, 'f': wire.dec(w['wire_stored'])})
+        try:
+            res = list(c.aggregate([{'$project': {
+                'x': {'$dateFromParts': parts},
+                'lt': {'$lt': [{'$dateFromParts': parts}, '$f']}}}]))
+            out.append(enc(res[0]['x']) == enc(g.spec_read(wire.dec(w['wire_rule']), tz))
+                       and res[0]['lt'] is True)
+        except Exception:  # pylint: disable=broad-except
+            out.append(False)
+    return not all(out)
+
+
 FINDINGS = {
     'tzaware_delete_date_id': _finding_tzaware_delete_date_id,
     'currentdate_raw': _finding_currentdate_raw,
     'tzaware_deepcopy': _finding_tzaware_deepcopy,
     'aggregate_literal_raw': _finding_aggregate_literal_raw,
+    'aggregate_computed_raw': _finding_aggregate_computed_raw,
 }
 
 
@@ -1337,3 +1693,38 @@ def replay_finding(ctx, e):
         return bool(fn(e['witness']))
     except Exception:  # pylint: disable=broad-except
         return True
+
+
+def run_fixed(ctx, judge, wire_ok, only=None):
+    """(c) the witnesses of the repaired findings, on every run: python must follow the rule on
+    each of them (a defect that returns is a VIOLATION); the witness of aggregate_literal_raw
+    goes through the model correspondence too"""
+    for e in common.load_known('C18'):
+        if e.get('status') != 'fixed' or (only and e['id'] != only):
+            continue
+        fn = FINDINGS.get(e['id'])
+        if fn is None:
+            ctx.violation({'kind': 'regression', 'finding': e['id'],
+                           'what': 'no regression check for the repaired finding %s' % e['id']},
+                          no_input=True)
+            continue
+        judge.counts['regression'] += 1
+        try:
+            back = bool(fn(e['witness']))
+        except Exception as x:  # pylint: disable=broad-except
+            back = 'raised %s: %s' % (type(x).__name__, x)
+        if back:
+            ctx.violation({'kind': 'regression', 'finding': e['id'], 'commit': e.get('commit'),
+                           'what': 'the repaired finding %s is back: %s' % (e['id'], e['what']),
+                           'witness': e['witness'], 'detail': back}, rank=0)
+        if e['id'] == 'aggregate_literal_raw' and wire_ok:
+            lit = wire.dec(e['witness']['wire_literal'])
+            pipeline = [{'$addFields': {'lit': {'$literal': lit}}}]
+            lines = wire.run_driver(['aggpipe %s %s' % (t, enc(pipeline)) for t in 'FT'])
+            for tz, line in zip((False, True), lines):
+                cl = mongomock.MongoClient(tz_aware=tz)
+                cl.db.c.insert_one({'_id': 1})
+                _, handed = _aggregate(cl, pipeline)
+                _check_handed(judge, {'tz': tz}, {'kind': 'regression', 'finding': e['id'],
+                                                  'tz_aware': tz}, pipeline, _snapshot(pipeline),
+                              handed, line)
